@@ -87,6 +87,89 @@ theorem threshold_last_wins (cfg c1 c2 : Config) (i j : Int)
     · simp [hi, hj, Config.setNat] at h1 h2 ⊢
       subst h1; exact h2
 
+/-- the setter call with the argument of its own kind (the calls the type systems of the three front ends allow) -/
+def call (id : SetterId) (b : Bool) (n : Int) (cfg : Config) : Option (Except Msg Config) :=
+  match id with
+  | .minRepetitions | .minSubstringLength => applySetter rsSetters id (.int n) cfg
+  | .escaping => applySetter rsSetters id (.bool b) cfg
+  | _ => applySetter rsSetters id .none cfg
+
+/-- what a successful call does to the configuration -/
+def callCfg (id : SetterId) (b : Bool) (n : Int) (cfg : Config) : Config :=
+  match id with
+  | .digits => { cfg with digit := true } | .nonDigits => { cfg with nonDigit := true }
+  | .whitespace => { cfg with space := true } | .nonWhitespace => { cfg with nonSpace := true }
+  | .words => { cfg with word := true } | .nonWords => { cfg with nonWord := true }
+  | .repetitions => { cfg with rep := true } | .caseInsensitive => { cfg with ci := true }
+  | .capturingGroups => { cfg with cap := true }
+  | .minRepetitions => { cfg with minRep := n.toNat } | .minSubstringLength => { cfg with minLen := n.toNat }
+  | .escaping => { cfg with esc := true, sur := b }
+  | .verbose => { cfg with verb := true }
+  | .noStartAnchor => { cfg with noStart := true } | .noEndAnchor => { cfg with noEnd := true }
+  | .noAnchors => { cfg with noStart := true, noEnd := true }
+  | .syntaxHighlighting => { cfg with color := true }
+
+/-- every call of a generated setter: it fails exactly for a zero threshold, and otherwise has the effect `callCfg` -/
+theorem call_ok (id : SetterId) (b : Bool) (n : Int) (cfg c : Config) (h : call id b n cfg = some (.ok c)) :
+    c = callCfg id b n cfg ∧ ((id = .minRepetitions ∨ id = .minSubstringLength) → n ≠ 0) := by
+  cases id
+  case minRepetitions =>
+    by_cases hn : n = 0
+    · simp [call, applySetter, findSetter, rsSetters, runBody, runStmt, hn] at h
+    · simp [call, applySetter, findSetter, rsSetters, runBody, runStmt, Config.setNat, hn] at h
+      exact ⟨h.symm, fun _ => hn⟩
+  case minSubstringLength =>
+    by_cases hn : n = 0
+    · simp [call, applySetter, findSetter, rsSetters, runBody, runStmt, hn] at h
+    · simp [call, applySetter, findSetter, rsSetters, runBody, runStmt, Config.setNat, hn] at h
+      exact ⟨h.symm, fun _ => hn⟩
+  all_goals
+    (simp [call, applySetter, findSetter, rsSetters, runBody, runStmt, Config.setBool, Config.setNat] at h
+     exact ⟨h.symm, by simp⟩)
+
+theorem call_of_ok (id : SetterId) (b : Bool) (n : Int) (cfg : Config)
+    (hn : (id = .minRepetitions ∨ id = .minSubstringLength) → n ≠ 0) : call id b n cfg = some (.ok (callCfg id b n cfg)) := by
+  cases id
+  case minRepetitions =>
+    have := hn (Or.inl rfl)
+    simp [call, applySetter, findSetter, rsSetters, runBody, runStmt, Config.setNat, this, callCfg]
+  case minSubstringLength =>
+    have := hn (Or.inr rfl)
+    simp [call, applySetter, findSetter, rsSetters, runBody, runStmt, Config.setNat, this, callCfg]
+  all_goals simp [call, applySetter, findSetter, rsSetters, runBody, runStmt, Config.setBool, Config.setNat, callCfg]
+
+theorem callCfg_commute (a b : SetterId) (hab : a ≠ b) (ba bb : Bool) (na nb : Int) (cfg : Config) :
+    callCfg b bb nb (callCfg a ba na cfg) = callCfg a ba na (callCfg b bb nb cfg) := by
+  cases a <;> cases b <;> first | rfl | exact absurd rfl hab
+
+/-- **C10 (order of settings, with arguments)** any two calls of *different* setters — thresholds with any argument, the escaping switch with
+either flag — commute whenever both orders succeed: the configuration after `a; b` is the configuration after `b; a` -/
+theorem calls_commute (a b : SetterId) (hab : a ≠ b) (ba bb : Bool) (na nb : Int) (cfg c1 c12 c2 c21 : Config)
+    (h1 : call a ba na cfg = some (.ok c1)) (h12 : call b bb nb c1 = some (.ok c12))
+    (h2 : call b bb nb cfg = some (.ok c2)) (h21 : call a ba na c2 = some (.ok c21)) : c12 = c21 := by
+  rw [(call_ok _ _ _ _ _ h12).1, (call_ok _ _ _ _ _ h1).1, (call_ok _ _ _ _ _ h21).1, (call_ok _ _ _ _ _ h2).1]
+  exact callCfg_commute a b hab ba bb na nb cfg
+
+/-- and when one order succeeds so does the other: success only depends on the call's own argument -/
+theorem calls_commute_success (a b : SetterId) (ba bb : Bool) (na nb : Int) (cfg c1 c12 : Config)
+    (h1 : call a ba na cfg = some (.ok c1)) (h12 : call b bb nb c1 = some (.ok c12)) :
+    ∃ c2 c21, call b bb nb cfg = some (.ok c2) ∧ call a ba na c2 = some (.ok c21) :=
+  ⟨_, _, call_of_ok b bb nb cfg (call_ok _ _ _ _ _ h12).2, call_of_ok a ba na _ (call_ok _ _ _ _ _ h1).2⟩
+
+/-- **C10 (the last call wins)** for every setter — the three with an argument included — calling it twice leaves the configuration the second
+call alone would have produced -/
+theorem last_call_wins (a : SetterId) (b1 b2 : Bool) (n1 n2 : Int) (cfg c1 c2 : Config)
+    (h1 : call a b1 n1 cfg = some (.ok c1)) (h2 : call a b2 n2 c1 = some (.ok c2)) :
+    call a b2 n2 cfg = some (.ok c2) := by
+  rw [(call_ok _ _ _ _ _ h2).1, (call_ok _ _ _ _ _ h1).1, call_of_ok a b2 n2 cfg (call_ok _ _ _ _ _ h2).2]
+  cases a <;> rfl
+
+/-- no setter switches the case-insensitive option off again -/
+theorem call_keeps_ci (a : SetterId) (b : Bool) (n : Int) (cfg c1 : Config) (h : call a b n cfg = some (.ok c1))
+    (hci : cfg.ci = true) : c1.ci = true := by
+  rw [(call_ok _ _ _ _ _ h).1]
+  cases a <;> first | exact hci | rfl
+
 /-! ## repeated `build()`: the list stored by the first call is a fixed point -/
 
 /-- contract of the external lower-casing used below: it is idempotent (true of `str::to_lowercase`;
@@ -152,7 +235,121 @@ theorem build_keeps_config (env : Env) (b b' : Builder) (s : Str) (h : b.build e
   · simp at h
   · simp at h; rw [← h.1]
 
+/-! ## `build()` in between: a later build with more settings sees what a fresh builder would see -/
+
+theorem stages_sorted (cfg : Config) (env : Env) (ws : List Str) (st : Stages) (h1 : regExpFrom cfg env ws = .ok st) :
+    st.sorted = sortCases (if cfg.ci = true then lowerCases env ws else ws) := by
+  unfold regExpFrom at h1
+  simp only [] at h1
+  split at h1
+  · simp at h1
+  · repeat' (split at h1)
+    all_goals (first | (simp at h1; done) | (simp only [Except.ok.injEq] at h1; rw [← h1]; simp [*]))
+
+/-- the result of `RegExp::from` depends on the list only through the stored form `sortCases (lower-cased or not)` -/
+theorem regExpFrom_stored (cfg : Config) (env : Env) (l1 l2 : List Str)
+    (h : sortCases (if cfg.ci = true then lowerCases env l1 else l1) = sortCases (if cfg.ci = true then lowerCases env l2 else l2)) :
+    regExpFrom cfg env l1 = regExpFrom cfg env l2 := by
+  unfold regExpFrom
+  simp only [h]
+
+/-- **C10 (`build()` in between)** after a first `build()` under `cfg` — which replaces the stored test cases by their sorted, under `-i`
+lower-cased, form — a `build()` under any later configuration `cfg'` (a setter never switches `-i` off: `call_keeps_ci`) computes
+exactly what it would compute on the original list -/
+theorem build_after_build (cfg cfg' : Config) (hmono : cfg.ci = true → cfg'.ci = true) (env : Env) (h : LowerIdem env)
+    (ws : List Str) (st : Stages) (h1 : regExpFrom cfg env ws = .ok st) :
+    regExpFrom cfg' env st.sorted = regExpFrom cfg' env ws := by
+  apply regExpFrom_stored
+  rw [stages_sorted cfg env ws st h1]
+  cases hc' : cfg'.ci with
+  | false =>
+    have hc : cfg.ci = false := by
+      cases hcc : cfg.ci with
+      | false => rfl
+      | true => rw [hmono hcc] at hc'; cases hc'
+    simp only [hc, Bool.false_eq_true, ite_false]
+    exact sortCases_idem ws
+  | true =>
+    simp only [ite_true]
+    apply sortCases_set
+    intro w
+    rw [lowerCases_sort_commute_mem]
+    cases hcc : cfg.ci with
+    | false => simp only [Bool.false_eq_true, ite_false]
+    | true => simp only [ite_true, lowerCases_idem env h]
+
+/-- the builder a history of calls runs on, with every `build()` recomputed from the *original* test cases (no stored state) -/
+def freshOutputs (env : Env) (ws0 : List Str) : List Op → Config → List Str → Except Panic (List Str)
+  | [], _, outs => .ok outs.reverse
+  | .build :: ops, cfg, outs =>
+    match regExpFrom cfg env ws0 with
+    | .ok st => freshOutputs env ws0 ops cfg (fmtRegExp cfg st.finalAst :: outs)
+    | .error e => .error e
+  | .set id arg :: ops, cfg, outs =>
+    match applySetter rsSetters id arg cfg with
+    | some (.ok cfg') => freshOutputs env ws0 ops cfg' outs
+    | some (.error .minRep) => .error .zeroMinRep
+    | some (.error .minLen) => .error .zeroMinLen
+    | some (.error .missingTestCases) => .error .noTestCases
+    | none => freshOutputs env ws0 ops cfg outs
+
+/-- a setter call with any argument keeps `-i` on -/
+theorem applySetter_keeps_ci (id : SetterId) (arg : Arg) (cfg c1 : Config)
+    (h : applySetter rsSetters id arg cfg = some (.ok c1)) (hci : cfg.ci = true) : c1.ci = true := by
+  cases id <;> cases arg <;>
+    simp [applySetter, findSetter, rsSetters, runBody, runStmt, Config.setBool, Config.setNat] at h
+  all_goals first
+    | (subst h; first | exact hci | rfl)
+    | (rename_i n; by_cases hn : n = 0
+       · simp [hn] at h
+       · simp [hn] at h; subst h; exact hci)
+    | (rename_i b; cases b <;> simp at h <;> subst h <;> first | exact hci | rfl)
+
+/-- **C10 (call sequences with interleaved `build()`)** for every history of setter calls and `build()` calls on one builder, every output is
+the output a fresh builder with the settings accumulated so far would give on the original test cases: calling `build()` in between —
+which sorts, de-duplicates and under `-i` lower-cases the stored list — leaves no trace in later results -/
+theorem history_outputs (env : Env) (hl : LowerIdem env) (ws0 : List Str) :
+    ∀ (ops : List Op) (b : Builder) (outs : List Str),
+      (∀ c', (b.config.ci = true → c'.ci = true) → regExpFrom c' env b.testCases = regExpFrom c' env ws0) →
+      (runHistory env ops b outs).map Prod.snd = freshOutputs env ws0 ops b.config outs := by
+  intro ops
+  induction ops with
+  | nil => intro b outs _; rfl
+  | cons op ops ih =>
+    intro b outs hinv
+    cases op with
+    | build =>
+      simp only [runHistory, freshOutputs, Builder.build]
+      rw [hinv b.config (fun h => h)]
+      cases hr : regExpFrom b.config env ws0 with
+      | error e => rfl
+      | ok st =>
+        simp only []
+        apply ih
+        intro c' hc'
+        exact build_after_build b.config c' hc' env hl ws0 st hr
+    | set id arg =>
+      simp only [runHistory, freshOutputs]
+      cases hs : applySetter rsSetters id arg b.config with
+      | none => exact ih b outs hinv
+      | some r =>
+        cases r with
+        | error m => cases m <;> rfl
+        | ok cfg' =>
+          simp only []
+          apply ih
+          intro c' hc'
+          apply hinv c'
+          intro hci
+          exact hc' (applySetter_keeps_ci id arg b.config cfg' hs hci)
+
+/-- the statement for a builder made by `from`: its history is judged against the original list -/
+theorem history_outputs_from (env : Env) (hl : LowerIdem env) (ws0 : List Str) (ops : List Op) :
+    (runHistory env ops ⟨ws0, {}⟩ []).map Prod.snd = freshOutputs env ws0 ops {} [] :=
+  history_outputs env hl ws0 ops ⟨ws0, {}⟩ [] (fun _ _ => rfl)
+
 /-! non-vacuity -/
+example : LowerIdem ⟨id, fun w => w.map (fun c => [c])⟩ := fun _ => rfl
 example : sortCases [strOf "b", strOf "a", strOf "b", strOf "ab"] = [strOf "a", strOf "b", strOf "ab"] := by decide
 example : sortCases [strOf "ab", strOf "b", strOf "a"] = sortCases [strOf "b", strOf "a", strOf "b", strOf "ab"] := by decide
 
